@@ -23,14 +23,17 @@ vars == <<tid, l, flagged, freshFlagged, verdict>>
 
 \* root classes: what the running simulation effectively read; in this order
 Root == <<"driver", "account-type", "leverage", "leverage-mode", "fee-rate", "fee-in-trades", "balance",
-          "warmup-size", "warmup-visible", "routes", "shared-vars", "hyperparameters", "arguments-modified",
-          "inputs">>
+          "warmup-size", "warmup-visible", "routes", "shared-vars", "hyperparameters", "strategy-state",
+          "strategy-metrics", "arguments-modified", "inputs">>
 \* result classes: the returned value and the order/trade trace
-Result == <<"exception", "first-step", "margin", "orders", "trades", "metrics", "final-balances", "result-keys">>
+\* ("returned-value": every key of the returned dict other than 'metrics', with its value)
+Result == <<"exception", "first-step", "margin", "orders", "trades", "metrics", "final-balances", "result-keys",
+            "returned-value">>
 All == Root \o Result
 \* a difference in one of these explains any difference in the result classes
 Behavioural == {"driver", "account-type", "leverage", "leverage-mode", "fee-rate", "fee-in-trades", "balance",
-                "warmup-size", "warmup-visible", "routes", "hyperparameters", "inputs"}
+                "warmup-size", "warmup-visible", "routes", "hyperparameters", "strategy-state", "strategy-metrics",
+                "inputs"}
 \* the classes Session.tla talks about
 Modelled == {"driver", "account-type", "leverage", "leverage-mode", "fee-rate", "fee-in-trades", "balance",
              "warmup-size", "warmup-visible", "routes", "shared-vars"}
@@ -53,6 +56,9 @@ Field(r, c) ==
     [] c = "routes" -> r.routes
     [] c = "shared-vars" -> r.shared
     [] c = "hyperparameters" -> r.hp
+    [] c = "strategy-state" -> r.strategy_state        \* portfolio value, self.trades, daily balances, self.vars,
+                                                       \* containers on the strategy classes - at the first step
+    [] c = "strategy-metrics" -> r.strategy_metrics    \* self.metrics & co. after the first closed trades
     [] c = "arguments-modified" -> r.args_after
     [] c = "inputs" -> r.args_before
     [] c = "exception" -> r.exc
@@ -63,6 +69,7 @@ Field(r, c) ==
     [] c = "metrics" -> r.metrics
     [] c = "final-balances" -> r.balances
     [] c = "result-keys" -> r.result_keys
+    [] c = "returned-value" -> r.result_items
 
 \* purity: the two runs differ in class c
 Differs(c) ==
@@ -131,6 +138,7 @@ Outcome(x) == IF x = "none" THEN "none" ELSE "exc"
 ModelAgrees ==
   IF ~T.hdr.has_pred THEN "n/a"
   ELSE IF [i \in DOMAIN A.hist_exc |-> Outcome(A.hist_exc[i])] # T.hdr.pred_excs THEN "outcomes-differ"
+  ELSE IF A.has_obs /\ A.debug # T.hdr.pred_debug THEN "debug-mode-differs"
   ELSE IF flagged \cap Modelled = SeqToSet(T.hdr.pred_stale) THEN "as-is"
   ELSE IF flagged \cap Modelled = {} THEN "intended"
   ELSE "neither"
